@@ -634,6 +634,19 @@ class SchemaGen(object):
             args = [self.make_input_value("%s_a%d" % (name, j), self.input_type_expr())
                     for j in range(rng.randint(0, 2))]
             self.s.directives[name] = SDirective(name, locs, args, self.desc(0.3))
+        # types that nothing but a directive argument refers to, one of them only through the other (side stream)
+        side = random.Random("directive-only:%s" % ",".join(sorted(self.s.types)))
+        if side.random() < 0.3 and self.features.get("directive_only_types", True):
+            e = self.s.add(SType("enum", self.fresh("DirectiveOnlyEnum"), None))
+            e.values = [SEnumValue("ONLY_A"), SEnumValue("ONLY_B")]
+            e.coded = False
+            sc = self.s.add(SType("scalar", self.fresh("DirectiveOnlyScalar"), None))
+            sc.strict = False
+            it = self.s.add(SType("input", self.fresh("DirectiveOnlyInput"), None))
+            it.input_fields = [SInput("pick", named(e.name), EnumLit("ONLY_B")), SInput("tag", lst(named(sc.name)))]
+            name = self.fresh("dirOnly")
+            self.s.directives[name] = SDirective(name, ["FIELD"], [SInput("%s_cfg" % name, named(it.name))])
+            e.discover_only = sc.discover_only = it.discover_only = True
 
     def generate(self):
         self.gen_enums_scalars_inputs()
@@ -796,7 +809,8 @@ def build_code_schema(s, resolver_for=None, type_resolver_for=None, default_reso
         mutation_type=built[s.mutation] if s.mutation else None,
         subscription_type=built[s.subscription] if s.subscription else None,
         directives=directives,
-        types=[built[n] for n in names],
+        # types marked discover_only are left for the schema to find (through the directive argument that uses them)
+        types=[built[n] for n in names if not getattr(s.types[n], "discover_only", False)],
     )
     return schema, built
 
